@@ -6,8 +6,13 @@ lockeng.rs) and on the extracted model Misc/Lock.v instantiated with the variant
 (Misc/LockInst.v `current`, driver/main.ml `lk_cmd`).  Python holds the property oracle:
   * an open succeeds iff no live holder exists (mutual exclusion; release => reopen);
   * `flock` on LOCK is held iff a holder exists;
-  * an operation of a non-holder (refused open, invalid open, close/drop of a closed store) leaves the
-    whole directory tree byte-identical (names, sizes, contents, LOCK included)."""
+  * an operation of a non-holder (refused open, invalid open, close/drop of a closed store, the end of the
+    runtime of a Tree that was dropped outside it) leaves the whole directory tree byte-identical (names,
+    sizes, contents, LOCK included);
+  * a Tree dropped on a thread outside any tokio runtime (`dropout`) has released the lock when drop() returns:
+    the flock probe taken at that instant (`dropprobe`, no waiting) says `free` and the next open — in this
+    process or in a child — succeeds while the dropped Tree's runtime still exists (finding F28, repaired: the
+    class drop_outside_runtime_keeps_lock is no longer a known finding, any recurrence is a violation)."""
 import os, re
 from . import common as C
 
@@ -80,7 +85,8 @@ class Book:
         self.holder = None      # ("I", i) / ("C", p)
         self.handles = {}       # ("I", i) -> "live" / "closed"
         self.kids = set()
-        self.detached = {}      # i -> was holder when dropped outside its runtime
+        self.detached = {}      # i -> was holder when dropped outside its runtime (that runtime still exists);
+                                # only names the class of a failure: the oracle expects the lock to be free
         self.lock_exists = False
 
 
@@ -104,6 +110,9 @@ def build_script(seq, opt="-", opts_by_ent=None):
             add("lk %s %d %02x %02x" % ("commit" if o == "open" else "pcommit", n, 0x61 + step, 0x30 + n), kind="commit", ent=ent)
         else:
             add("lk %s %d" % (o, n), kind="op", op=o, ent=ent, step=step)
+            if o == "dropout":
+                # the flock probe the harness took the instant drop(tree) returned
+                add("lk dropprobe", kind="holder", instant=True)
         add("lk snapshot", kind="snap", after=at)
         add("lk holder", kind="holder")
     return lines, meta
@@ -247,6 +256,8 @@ def check_script(lines, meta, impl, model, res, stats):
                     else:
                         del b.handles[ent]
             elif o == "rtgone":
+                # the dropped Tree closed its store in drop(): nothing of it is left on this runtime
+                cur_non_holder = True
                 b.detached.pop(ent[1], None)
             elif o in KIDS_OPS:
                 if ent in b.kids:
@@ -261,9 +272,12 @@ def check_script(lines, meta, impl, model, res, stats):
         elif k == "holder":
             leak = any(b.detached.values())
             exp = "absent" if not b.lock_exists else ("held" if b.holder is not None else "free")
+            if m.get("instant"):
+                stats["drop_probes"] = stats.get("drop_probes", 0) + 1
             if il != exp:
                 if exp == "free" and il == "held" and leak:
-                    known(i, "drop_outside_runtime_keeps_lock", "the store was dropped outside its runtime; flock on LOCK is still held with no holder left")
+                    known(i, "drop_outside_runtime_keeps_lock", "the store was dropped outside its runtime; flock on LOCK is still held with no holder left"
+                          + (" at the instant drop() returned" if m.get("instant") else ""))
                 else:
                     violation(i, "flock on LOCK is `%s` but the oracle expects `%s` (holder=%s)" % (il, exp, b.holder))
                     return
@@ -336,12 +350,40 @@ def family_options():
 
 
 def family_detached():
-    """Tree dropped on a thread outside its runtime (`dropout`), the runtime shut down later (`rtgone`)"""
-    return [build_script(seq) for seq in (
-        [("open", 1), ("dropout", 1), ("open", 2), ("spawn", 1), ("rtgone", 1), ("open", 2)],
-        [("open", 1), ("close", 1), ("dropout", 1), ("open", 2), ("rtgone", 1)],
-        [("spawn", 1), ("open", 1), ("pkill", 1), ("open", 1), ("dropout", 1), ("spawn", 2), ("rtgone", 1), ("spawn", 2)],
-    )]
+    """Tree dropped on a thread outside its runtime (`dropout`): the lock is free at once (`dropprobe`), the next
+    opener — in-process or a child — gets in while the dropped Tree's runtime still exists; that runtime is shut
+    down later (`rtgone`) and must change nothing.  Each order with every option set (flush_on_close off: the
+    next open replays the WAL the detached close left; value log; versioning)."""
+    out = []
+    for opt in ("-", "nofoc", "vlog", "ver"):
+        for seq in (
+            [("open", 1), ("dropout", 1), ("open", 2), ("spawn", 1), ("rtgone", 1), ("close", 2), ("spawn", 1), ("open", 1)],
+            [("open", 1), ("close", 1), ("dropout", 1), ("open", 2), ("rtgone", 1), ("dropout", 2), ("open", 1)],
+            [("spawn", 1), ("open", 1), ("pkill", 1), ("open", 1), ("dropout", 1), ("spawn", 2), ("rtgone", 1), ("spawn", 3), ("pexit", 2), ("spawn", 3)],
+            [("open", 1), ("dropout", 1), ("open", 2), ("dropout", 2), ("open", 3), ("dropout", 3), ("spawn", 1), ("rtgone", 2), ("rtgone", 1), ("rtgone", 3), ("pclose", 1), ("open", 1)],
+            [("open", 1), ("dropout", 1), ("rtgone", 1), ("open", 1), ("drop", 1), ("open", 1), ("dropout", 1), ("spawn", 1), ("pdrop", 1), ("open", 2)],
+        ):
+            out.append(build_script(seq, opt=opt))
+    return out
+
+
+def detach_order(seq):
+    """an enumerated order with every in-process `drop` replaced by a drop outside the runtime; the dropped Tree's
+    runtime is shut down only when the same opener id is needed again (the harness keeps it under that id), so
+    every other opener runs while it still exists.  None if the order has no in-process drop."""
+    if not any(o == "drop" for o, _ in seq):
+        return None
+    out, zombie = [], set()
+    for o, n in seq:
+        if o == "drop":
+            out.append(("dropout", n))
+            zombie.add(n)
+        else:
+            if o == "open" and n in zombie:
+                out.append(("rtgone", n))
+                zombie.discard(n)
+            out.append((o, n))
+    return out
 
 
 
@@ -421,6 +463,12 @@ def explore(ctx):
                 scripts.append(build_script(s, opt="nofoc") + ("orders-nofoc",))
             else:
                 scripts.append(build_script(s, opt="nofoc" if (j + ctx["seed"]) % 3 == 0 else "-") + ("orders",))
+        # the same orders with the in-process drops done outside the runtime
+        det = [d for d in (detach_order(s) for s in seqs) if d is not None]
+        if tier == "quick" and len(det) > 60:
+            det = rng.sample(det, 60)
+        for j, d in enumerate(det):
+            scripts.append(build_script(d, opt="nofoc" if (j + ctx["seed"]) % 3 == 0 else "-") + ("orders-detached",))
     for sc in family_options():
         scripts.append(sc + ("options",))
     for sc in family_detached():
@@ -472,7 +520,9 @@ def explore(ctx):
                 "openers and spawn/pclose/pdrop/pexit/pkill(-9) over child processes, 2 and 3 openers in the mixes %s, up to renaming of "
                 "same-kind openers%s; a commit after every successful open; directory snapshot (all names, sizes, content hashes, LOCK included) "
                 "and flock probe after every operation; plus option mixes (plain/vlog/versioning/invalid for holder and refused opener, in-process "
-                "and child) and drops outside the runtime. non-trivial = scripts containing at least one refused open"
+                "and child), drops outside the runtime (directed orders x option sets, with the flock probe taken the instant drop() "
+                "returned), and the enumerated orders again with every in-process drop done outside the runtime (the dropped Tree's runtime "
+                "kept alive while the other openers run). non-trivial = scripts containing at least one refused open"
                 % (LEN, LEN, "/".join("%dI+%dC" % c for c in CONFIGS),
                    " — exhaustive (%d orders), each with flush_on_close on and off" % total_orders if tier == "thorough"
                    else " — sampled (%d of %d orders)" % (sum(per_config.values()), total_orders)),
@@ -480,6 +530,7 @@ def explore(ctx):
         "programs": len(scripts), "disagreements_checked": stats["compared"],
         "orders_total": total_orders, "orders_run_per_config": per_config, "families": fam,
         "op_mix": stats["ops"], "refused_opens": stats["refused"], "known_class_hits": stats["known_hits"],
+        "instant_drop_probes": stats.get("drop_probes", 0),
         "exhaustive": tier == "thorough",
     }
     return res
